@@ -192,6 +192,9 @@ def stress_histories():
     hs.append([["parse", "4x +"], ["tokenize", "9 9"]] + [["parse", f"{k}x + {k + 1}"] for k in range(300)] + [["query", q] for q in POOL])
     for a in POOL:
         hs.append([["query", a]] + [["query", b] for b in POOL])
+    # early texts requested again after many other distinct texts (bounded / evicting caches)
+    many = [f"{k}x + {k + 1}" for k in range(120)]
+    hs.append([["parse", t] for t in many] + [["query", t] for t in many[:60]] + [["tokenize", t] for t in many[60:]] + [["query", t] for t in many])
     return hs
 
 
